@@ -70,7 +70,7 @@ SPECS = {
     "C11": {
         "corr": ["Life", "Proto"],
         "engines": [
-            {"name": "life", "n": {"quick": 1200, "thorough": 12000}},
+            {"name": "life", "n": {"quick": 1200, "thorough": 12000}, "spec_corr": "lifecycle state machine of docs/design/document-client-lifecycle.md"},
             {"name": "hist", "tag": "c11", "extra": "prop=C11", "n": {"quick": 300, "thorough": 4000}},
         ],
         "explanation": "Lifecycle specification (transcribed from the design document) with theorems for every state and call (PushPull only when attached, rejected call is a no-op, detached/removed/deactivated clients cannot write, removed is forever). The real RPC server is compared with the specification call by call (verdict, stored client/document status, number of stored changes) on all call sequences up to length 2 (quick) / 3 (thorough) over 2 client slots x 2 document keys plus seeded mostly-valid sequences of length 4-8; histories with detach/deactivate/re-attach are replayed through the protocol model, and the response vector must be exactly the minimum over the currently attached clients (a detached or deactivated client no longer holds back GC).",
@@ -153,7 +153,7 @@ SPECS = {
         "level": "translation_validation",
         "corr": ["Locks"],
         "engines": [
-            {"name": "locks", "race": True, "n": {"quick": 1, "thorough": 1}},
+            {"name": "locks", "race": True, "n": {"quick": 1, "thorough": 1}, "spec_corr": "lock order doc -> pull -> attachment -> push (docs/design/fine-grained-document-locking.md)"},
         ],
         "explanation": "Theorem: threads taking named reader/writer locks (writer preference) in strictly increasing class order never deadlock - progress in every reachable state, any number of threads, any keys, any schedule; instantiated for any table of handler sequences that follow the order. The table is regenerated on every run by a translator (lockscan: Go AST of server/rpc, packs, documents, clients, projects, revisions; acquisitions in source order, callees and ClusterService calls inlined, asynchronous function literals as separate entry points) and every extracted sequence must satisfy the premise. The pre-repair order of ClusterService.DetachDocument is exhibited as a three-party deadlock in the model. Workload in a race-detector build: 8 SDK clients x 3 documents attach/edit/sync/watch/detach/deactivate in parallel with compaction and housekeeping passes on a real server with tiny snapshot settings: every call returns within 30 s (goroutine dump otherwise), no unexpected error, no race report, convergence and a dense ordered log afterwards.",
         "assumptions": [
